@@ -392,8 +392,9 @@ def plans_of_class(cls: str, n: int, rounds: int) -> Any:
             "pattern": pattern_plans}[cls](n, rounds)
 
 
-SIZES = ((4, 1), (4, 2), (4, 2), (4, 3), (6, 1), (6, 2), (6, 2), (6, 3),
-         (8, 1), (8, 2), (8, 3))
+SIZES = ((2, 1), (2, 2), (2, 3), (4, 1), (4, 2), (4, 2), (4, 2), (4, 3),
+         (4, 3), (6, 1), (6, 2), (6, 2), (6, 2), (6, 3), (6, 3), (8, 1),
+         (8, 2), (8, 2), (8, 3), (8, 3))
 CLASS_MIX = ("uniform", "circle", "circle", "circle", "circle", "circle",
              "doubled", "daywise", "daywise", "perturbed", "perturbed",
              "bye", "selfplay", "pattern")
@@ -432,7 +433,7 @@ def selfplay_cases(draw: Any, sizes: tuple = SIZES) -> dict:
 def extreme_setting(draw: Any, n: int, rounds: int) -> list[int]:
     """Values at the ends of the admissible range (largest minima)."""
     ll = streak_limit(n, rounds)
-    lo = st.sampled_from([1, 2, ll - 1, ll])
+    lo = st.sampled_from([1, min(2, ll), max(1, ll - 1), ll])
     hmin, amin = draw(lo), draw(lo)
     smin = draw(st.sampled_from([0, 1, ll - 1, ll]))
     return [hmin, draw(st.sampled_from([hmin, ll])), amin,
